@@ -13,6 +13,7 @@ use vcore::{Reporter, Scratch, Tier};
 
 const TESTDATA: &str = "/repo/resources/testdata";
 const COMPILE_TIMEOUT_MS: u64 = 60_000;
+const COMPILER_THREADS: &str = "4";
 
 /// (name, command-line arguments)
 const OPTION_SETS: [(&str, &[&str]); 8] = [
@@ -84,6 +85,8 @@ fn compile_and_check(case: &Case, options: &[&str]) -> Outcome {
     let scratch = Scratch::new("c05");
     let out = scratch.join("font.ttf");
     let mut cmd = vcore::fontc_cmd(&vcore::fontc_bin(), None);
+    // 16 compiles run side by side: a full-width rayon pool in each only adds contention
+    cmd.env("RAYON_NUM_THREADS", COMPILER_THREADS);
     cmd.current_dir(scratch.path()).arg(&case.source).arg("-o").arg(&out).arg("-b").arg(scratch.join("build")).args(options);
     let run = vcore::run_proc(&mut cmd, COMPILE_TIMEOUT_MS, None);
     if run.code != Some(0) {
@@ -238,6 +241,7 @@ fn main() {
     rep.set("samples", samples);
     rep.set("exhaustive", true);
     rep.assume("oracle: otref (hand-written sfnt/glyf/cmap/gvar/post readers, read-fonts typed tables for the rest, skrifa as second reader); a defect both read-fonts and the hand-written checks overlook is not seen");
+    rep.assume("the product binary runs with RAYON_NUM_THREADS=4 (its free-running pool; schedules are C01/C02's subject)");
     rep.assume("compiles that exit non-zero are counted, not judged (C15 covers them)");
     if args.tier == Tier::Quick {
         rep.assume("quick tier: option sets default, flatten, skip-features only; thorough adds decompose, decompose-transformed, no-prefer-simple, keep-direction, no-production-names");
